@@ -74,14 +74,23 @@ end Gotlcp.Go
 
 namespace Gotlcp.Go
 
+/-- a hash algorithm (`func() hash.Hash`): `sm3.New`, `sha256.New` -/
+inductive HashAlg where
+  | sm3 | sha256
+deriving Repr, DecidableEq
+
 /-- Library functions the translator models by a parameter: the generated definitions that call
 them take `(ext : Extern)` and the theorems quantify over every `ext`. -/
 structure Extern where
-  /-- `hmac.New(sm3.New, key)`, `Write`s, `Sum(nil)`: the MAC of the concatenated input -/
-  hmacSM3 : List (BitVec 8) → List (BitVec 8) → List (BitVec 8)
+  /-- `hmac.New(alg, key)`, `Write`s, `Sum(nil)`: the MAC of the concatenated input -/
+  hmac : HashAlg → List (BitVec 8) → List (BitVec 8) → List (BitVec 8)
 
-/-- a keyed hash object between `hmac.New` and `Sum`: its key and the input written so far -/
+/-- HMAC-SM3 -/
+abbrev Extern.hmacSM3 (ext : Extern) : List (BitVec 8) → List (BitVec 8) → List (BitVec 8) := ext.hmac .sm3
+
+/-- a keyed hash object between `hmac.New` and `Sum`: algorithm, key and the input written so far -/
 structure Hmac where
+  alg : HashAlg := .sm3
   key : List (BitVec 8) := []
   input : List (BitVec 8) := []
 deriving Repr, DecidableEq
